@@ -322,6 +322,35 @@ Wide == IF Level >= 2 THEN 120 ELSE 90
 Positions(bs) == {i \in 1..Len(bs) : bs[i] < 256 /\ (Len(bs) <= Wide \/ i <= Wide \div 2 \/ i > Len(bs) - 24)}
 Cuts(bs) == {i \in 0..(Len(bs) - 1) : Len(bs) <= Wide \/ i <= Wide \div 2 \/ i > Len(bs) - 24 \/ i % 44 = 8 \/ i % 32 = 5}
 
+\* wrap-around classes for counts / lengths: 2^k (k = 24..31), 2^k + j for small j, 0x7FFFFFFF, 0xFFFFFFFF as
+\* little-endian 32-bit fields, 2^59..2^63 (+ j), 2^63 - 1 and the 32-bit values as 64-bit fields: values whose
+\* product with an element size wraps to something small in 32- or 64-bit arithmetic
+Pow8 == {1, 2, 4, 8, 16, 32, 64, 128}
+Wrap32 == {<<j, 0, 0, x>> : j \in 0..3, x \in Pow8} \cup {<<255, 255, 255, 127>>, <<255, 255, 255, 255>>}
+Wrap64 == {<<j, 0, 0, 0, 0, 0, 0, x>> : j \in 0..3, x \in {8, 16, 32, 64, 128}} \cup {Rep(255, 7) \o <<127>>}
+          \cup {w \o <<0, 0, 0, 0>> : w \in Wrap32}
+SetField(bs, i, w) == [j \in 1..Len(bs) |-> IF j >= i /\ j < i + Len(w) THEN w[j - i + 1] ELSE bs[j]]
+\* a one-byte length prefix at position i replaced by the 5- or 9-byte form carrying w
+SetPrefix(bs, i, w) == SubSeq(bs, 1, i - 1) \o <<IF Len(w) = 4 THEN 254 ELSE 255>> \o w \o SubSeq(bs, i + 1, Len(bs))
+\* fixed-width count fields <<position, width>> and positions of length prefixes of a base payload
+CountFields(cmd, b) ==
+    CASE cmd = "addr" -> {<<1, 8>>}
+      [] cmd = "inv" -> {<<2, 4>>}
+      [] cmd \in {"headers", "members"} -> {<<1, 4>>}
+      [] cmd = "findnodeack" -> IF Len(b) >= 22 /\ ~VarBytes(b, 21).eof /\ VarBytes(b, 21).hi + 4 <= Len(b)
+                                THEN {<<VarBytes(b, 21).hi + 1, 4>>} ELSE {}
+      [] OTHER -> {}
+PrefixFields(cmd, b) ==
+    {i \in CASE cmd = "version" -> {77}
+             [] cmd = "findnodeack" -> {22} \cup (IF Len(b) >= 22 /\ ~VarBytes(b, 21).eof THEN {VarBytes(b, 21).hi + 4 + 20 + 1} ELSE {})
+             [] cmd = "members" -> {5} \cup (IF Len(b) >= 5 /\ ~VarBytes(b, 4).eof THEN {VarBytes(b, 4).hi + 1} ELSE {})
+             [] cmd = "consensus" -> {47} \cup (IF Len(b) >= 47 /\ ~VarBytes(b, 46).eof
+                                               THEN {VarBytes(b, 46).hi + 1} \cup
+                                                    (IF ~VarBytes(b, VarBytes(b, 46).hi).eof THEN {VarBytes(b, VarBytes(b, 46).hi).hi + 1} ELSE {})
+                                               ELSE {})
+             [] cmd = "getmembers" -> {45}
+             [] OTHER -> {} : i <= Len(b) /\ b[i] < 253}
+
 Do(kind, f) == /\ phase' = phase
                /\ LET res == ReadMessage(f) IN
                   act' = [name |-> "Read", kind |-> kind, frame |-> f, res |-> res.r, out |-> res.out, req |-> res.req,
@@ -334,6 +363,12 @@ Next == \/ \E cmd \in Cmds : \E b \in Bases(cmd) :
            \/ Level >= 1 /\ \E i \in Positions(b) : \E x \in ReplBytes \cup {(b[i] + 1) % 256} : x # b[i] /\ Do("byte", Frame(cmd, SetAt(b, i, x)))
            \/ \E i \in Positions(b) : i + 3 <= Len(b) /\ Do("count", Frame(cmd, Win(b, i, 4)))
            \/ \E i \in Positions(b) : i + 7 <= Len(b) /\ (i = 1 \/ Level >= 2) /\ Do("count", Frame(cmd, Win(b, i, 8)))
+           \/ \E fw \in CountFields(cmd, b) : \E w \in (IF fw[2] = 4 THEN Wrap32 ELSE Wrap64) : Do("wrap", Frame(cmd, SetField(b, fw[1], w)))
+           \/ \E i \in PrefixFields(cmd, b) : \E w \in Wrap32 \cup {v \in Wrap64 : v[8] # 0} : Do("wrap", Frame(cmd, SetPrefix(b, i, w)))
+           \/ Level >= 2 /\ \E i \in Positions(b) : i + 3 <= Len(b) /\ Plain(b, i, i + 3)
+                    /\ \E w \in {<<0, 0, 0, 8>>, <<0, 0, 0, 128>>, <<1, 0, 0, 8>>, <<2, 0, 0, 1>>} : Do("wrapany", Frame(cmd, SetField(b, i, w)))
+           \/ Level >= 2 /\ \E i \in Positions(b) : i + 7 <= Len(b) /\ Plain(b, i, i + 7)
+                    /\ \E w \in {<<0, 0, 0, 0, 0, 0, 0, 8>>, <<1, 0, 0, 0, 0, 0, 0, 128>>, <<0, 0, 0, 8, 0, 0, 0, 0>>} : Do("wrapany", Frame(cmd, SetField(b, i, w)))
            \/ \E x \in {0, 255} : Do("trail", Frame(cmd, b \o <<x>>))
            \/ Do("magic", [Frame(cmd, b) EXCEPT !.magic = "bad"])
            \/ \E l \in {"plus1", "minus1", "max", "maxplus1", "huge"} : (l = "minus1" => Len(b) > 0) /\ Do("length", [Frame(cmd, b) EXCEPT !.lenf = l])
@@ -378,5 +413,9 @@ ReproOK == [][act'.name = "Read" /\ act'.res = "ok" /\ act'.frame.lenf = "exact"
                  \/ act'.frame.cmd \in {"addr", "inv"} /\ Len(out) < Len(inp)         \* clamp
                  \/ act'.frame.cmd \in {"version", "block", "findnodeack", "getaddr"}  \* lenient decoders
              ]_vars
+\* C24 allocation: a count / length beyond what the payload can hold is rejected by every decoder (the
+\* harness checks that the real decoder does so without allocating for the announced number)
+WrapRejected == [][act'.name = "Read" /\ act'.kind = "wrap" /\ act'.frame.cmd \in {"addr", "inv", "headers", "members"}
+                      => act'.res \in {"err", "panic"}]_vars
 State == [phase |-> phase]
 =============================================================================
